@@ -15,6 +15,9 @@ CHECKS = {
  "C09": ("combinator semantics monitor: argument-relative oracle (each argument evaluated alone on the original input, per union stage), all permutations of ^, structural construction algebra",
          "For generated combinator nodes over disagreeing argument types: | accepts <=> some argument accepts in one of the three stages and returns an accepting argument's output (exact-type inputs returned unchanged); ^ accepts <=> exactly one argument accepts, identically for every argument order; ~ accepts <=> argument rejects, returning the input object; & equals the left fold. ~~T, duplicate/Any absorption, same-kind flattening and operator order with data classes are checked on the built types.",
          "Argument verdicts come from the library itself on fresh contexts (relation between runs). One known finding (^ exact-type shortcut). One-shot inputs skipped.", "§4 C09"),
+ "C16": ("history + executable sequential model over uniquely tagged registrations; bounded-exhaustive histories on a fresh TypeRegistry, random histories incl. base registries and the library's global transformer/encoder registries",
+         "Every read (resolve / type_transform / plain-typed Schema field / json.dumps) in every history of length <= 5 (quick; 6 thorough) over a 13-symbol alphabet, plus random longer histories, must return the registration the no-cache 'highest priority, most recent wins' model predicts. Exhaustive for the stated alphabet and bound; exploration beyond it.",
+         "Trusted: model_resolve()/matches() in vmon/props/c16.py (25 lines). Two defects found and repaired in /repo (b8f56f5, 28f56ca).", "§4 C16"),
  "C12": ("preference monitor at type_transform: subset/agreement relation between flag sets + independent promise predicates; hostile pool x targets exhaustive",
          "For every (source, target) pair of the hostile pool x 36 targets (quick, exhaustive over the pools) and 4e5 generated sources (thorough): a conversion that succeeds under no_explicit_cast / no_data_loss / both must succeed without flags with an equal same-type value; no_data_loss results must keep the listed promises; no_explicit_cast results must stay inside the documented primitive group.",
          "Trusted: promise_ndl()/src_groups() in vmon/props/c12.py (written from docs/en/references/options.md). Four mechanism-keyed known findings. Data classes receive runtime flags through __from__ (type_transform keeps a class's own options).", "§4 C12"),
